@@ -32,6 +32,7 @@ type ReqSpec struct {
 	CancelAfter  bool          `json:"cancel_after,omitempty"`  // cancel right after RoundTrip returned
 	Deadline     time.Duration `json:"deadline,omitempty"`      // >0: context deadline from now
 	NoWait       bool          `json:"no_wait,omitempty"`       // do not wait for quiescence
+	Reuse        bool          `json:"reuse,omitempty"`         // caller reuses (mutates) its request object once the body is closed
 	KeepBody     bool          `json:"-"`                       // leave the body unread (Mode R callers)
 }
 
@@ -420,6 +421,14 @@ func (w *World) Run(ex *Exchange) {
 	if spec.CancelAfter {
 		cancel()
 	}
+	if spec.Reuse && req.URL != nil {
+		// the body has been read and closed: the caller owns the request again
+		req.URL.Path = "/reused-by-caller"
+		req.URL.RawPath = ""
+		req.URL.RawQuery = "reused=1"
+		req.Header.Set("X-Reused", "1")
+		req.Header.Del("X-A")
+	}
 	if !spec.NoWait {
 		if w.InBubble {
 			synctest.Wait()
@@ -428,6 +437,9 @@ func (w *World) Run(ex *Exchange) {
 			ex.HeaderQ = resp.Header.Clone()
 		}
 		ex.ReqQuiesced = snapReq(req)
+		if spec.Reuse {
+			ex.ReqQuiesced = ex.ReqAfter
+		}
 		ex.StoreOps = w.Store.Ops(ex.OpsFrom)
 	}
 	if spec.Deadline > 0 && !spec.CancelAfter {
